@@ -142,7 +142,7 @@ package basestore
 //@   ensures @C08 @C04 @C10 forall x Iface :: old(ents(L)[x]) ==> ents(L)[x]
 //@   ensures @C16 evCount(R) == N0 || evCount(R) == N0 + 1
 //@   ensures @C16 @C05 @C01 evCount(R) == N0 + 1 ==> synced(b) && dsHas(C)[RH]
-//@   ensures @C01 @C06 @C07 (old(synced(b)) ==> synced(b)) || idxFails(b.index) > old(idxFails(b.index))
+//@   ensures @C01 @C06 @C07 @C10 @C16 (old(synced(b)) ==> synced(b)) || idxFails(b.index) > old(idxFails(b.index))
 //@   ensures statusProgress(b.replicationStatus) <= statusMax(b.replicationStatus)
 //@   ensures @C19 statusMax(b.replicationStatus) >= old(statusMax(b.replicationStatus)) && statusProgress(b.replicationStatus) >= old(statusProgress(b.replicationStatus))
 //@   ensures @C19 evCount(R) == N0 + 1 ==> logLen(L) <= statusProgress(b.replicationStatus)
@@ -154,7 +154,7 @@ package basestore
 // that was interrupted by the context is never merged (C11: it would hide the missing ancestors from every
 // later load).
 //@ func (*BaseStore).Load
-//@   props C15 C05 C01 C16 C04 C03 C11
+//@   props C15 C05 C01 C16 C04 C03 C11 C06 C07
 //@   safety C15
 //@   flag nilcalls
 //@   flag inline-go$2
@@ -173,8 +173,8 @@ package basestore
 //@   assert @ before call wg.Add#1: @C15 @C05 @C01 len(heads) == max(len(localHeads), 0) + max(len(remoteHeads), 0) && (forall j Int :: 0 <= j && j < len(localHeads) ==> heads[j] == localHeads[j]) && (forall j Int :: 0 <= j && j < len(remoteHeads) ==> heads[max(len(localHeads), 0) + j] == remoteHeads[j])
 //@   assert @ before call oplog.Join#1: @C11 fetchedAll(boxptr(l, "berty.tech/go-ipfs-log.IPFSLog"))
 //@   assert @ before call oplog.Join#1: @C04 @C03 logID(boxptr(l, "berty.tech/go-ipfs-log.IPFSLog")) == logID(oplog) && acOf(boxptr(l, "berty.tech/go-ipfs-log.IPFSLog")) == b.access && prov(boxptr(l, "berty.tech/go-ipfs-log.IPFSLog")) != 0
-//@   assert @ before call b.emitters.evtReady.Emit#1: @C01 @C05 @C16 @C15 len(heads) > 0 ==> synced(b)
-//@   ensures @C01 @C05 @C16 @C15 result == nil && len(heads) > 0 ==> synced(b)
+//@   assert @ before call b.emitters.evtReady.Emit#1: @C01 @C05 @C16 @C15 @C06 @C07 len(heads) > 0 ==> synced(b)
+//@   ensures @C01 @C05 @C16 @C15 @C06 @C07 result == nil && len(heads) > 0 ==> synced(b)
 
 // handleEventWrite (C09): a store announces only write events of its own address, under its own address,
 // with the heads carried by the event; anything else is ignored (the event bus is shared by the instance).
@@ -217,6 +217,7 @@ package basestore
 //@   requires statusProgress(b.replicationStatus) <= statusMax(b.replicationStatus)
 //@   loop 1 noexit
 //@   loop 1 invariant wf(b) && statusProgress(b.replicationStatus) <= statusMax(b.replicationStatus) && span != nil
+//@   assert @ before call b.recalculateReplicationMax#1: @C19 maxTotal == 0 || (evt.Entry != nil && maxTotal == ptr(ptr(evt.Entry, "entry.Entry").Clock, "entry.LamportClock").Time)
 //@   assume @ case replicator.EventLoadProgress: evt.Entry != nil && ref(evt.Entry) != 0 && ptr(evt.Entry, "entry.Entry").Clock != nil
 //@   assume @ case replicator.EventLoadAdded: evt.Entry != nil ==> ref(evt.Entry) != 0
 //@   assume @ case replicator.EventLoadEnd: forall i Int :: 0 <= i && i < len(evt.Logs) ==> evt.Logs[i] != nil && prov(evt.Logs[i]) == 1 && logID(evt.Logs[i]) == logID(b.oplog) && acOf(evt.Logs[i]) == acOf(b.oplog)
@@ -263,3 +264,10 @@ package basestore
 //@   loop 2 invariant oplog == L && logLen(L) == old(logLen(L))
 //@   ensures result1 == nil ==> snapSize(header) == logLen(L) && snapNHeads(header) == len(headsOf(L))
 //@   ensures result1 == nil ==> dsHas(C)[dsKey("snapshot")]
+
+// replicate (C09): the store listens on the topic named by its own full address, nothing shorter.
+//@ func (*BaseStore).replicate
+//@   props C09
+//@   flag no-safety
+//@   assert @ after call b.pubsub.TopicSubscribe#1: $r1 == nil ==> topicName($r0) == b.id
+//@   modifies *
